@@ -1342,6 +1342,13 @@ impl<'source, 'trivia> GroupBuilder<'source, 'trivia> {
                             self.group_break(GroupBreak::LineStart);
                         }
                     }
+                    // A comment at the end of a line stays on its line, even when the line is too long.
+                    // Moving it to the next line would attach it to whatever follows.
+                    TriviaPosition::LineEnd
+                        if self.items.last().is_some_and(|item| !item.is_break()) =>
+                    {
+                        self.items.push(FormatItem::Char(' '));
+                    }
                     _ if self.items.last().is_some_and(|item| !item.is_break()) => {
                         self.group_break(GroupBreak::SpaceOrIndentIfNecessary);
                     }
